@@ -71,6 +71,9 @@ type Op struct {
 type Case struct {
 	Family       string       `json:"family"`
 	MgrTimeoutMs int          `json:"mgr_timeout_ms"` // Config.ReceiveTimeout
+	// CbDelayUs > 0: every callback takes that long (a callback is logged when
+	// it RETURNS, so a callback still running after Remove returned is seen).
+	CbDelayUs int `json:"cb_delay_us,omitempty"`
 	Targets      []TargetSpec `json:"targets"`
 	Ops          []Op         `json:"ops"`
 	// Reps > 1: the case is run Reps times (timing varies between runs); Obs
@@ -82,10 +85,15 @@ type Case struct {
 // ---------------------------------------------------------------------------
 // per-target runtime
 
+// longTimeoutMs and above: the receive timer is armed by the code but cannot
+// expire within a run; the model is then told "no timeout".
+const longTimeoutMs = 3600000
+
 type tgt struct {
 	name    string
 	spec    TargetSpec
-	timeout bool // effective receive timeout > 0
+	timeout bool // the receive timer may expire during the run
+	cbDelay time.Duration
 
 	mu        sync.Mutex
 	cond      *sync.Cond
@@ -316,6 +324,9 @@ func cb(name, what string) {
 		atomic.AddInt64(&strays, 1)
 		return
 	}
+	if t.cbDelay > 0 {
+		time.Sleep(t.cbDelay)
+	}
 	t.ev(what, true)
 }
 
@@ -369,7 +380,8 @@ func runCase(c Case, window time.Duration) [][]string {
 	ts := make([]*tgt, len(c.Targets))
 	for i, sp := range c.Targets {
 		t := &tgt{name: fmt.Sprintf("c%d-t%d", seq, i), spec: sp}
-		t.timeout = sp.TimeoutMs > 0 || c.MgrTimeoutMs > 0
+		t.timeout = mayExpire(c, sp)
+		t.cbDelay = time.Duration(c.CbDelayUs) * time.Microsecond
 		t.cond = sync.NewCond(&t.mu)
 		ts[i] = t
 		registry.Store(t.name, t)
@@ -398,6 +410,16 @@ func runCase(c Case, window time.Duration) [][]string {
 		// the name stays registered: a late callback must still find its log
 	}
 	return out
+}
+
+// mayExpire: the effective receive timeout (target meta overrides the
+// manager's) is short enough to fire during a run.
+func mayExpire(c Case, sp TargetSpec) bool {
+	eff := c.MgrTimeoutMs
+	if sp.TimeoutMs > 0 {
+		eff = sp.TimeoutMs
+	}
+	return eff > 0 && eff < longTimeoutMs
 }
 
 func protoTarget(t *tgt) *tpb.Target {
@@ -566,7 +588,7 @@ func caseTerm(c Case) string {
 			evs[j] = evTerm(e)
 		}
 		ts[i] = fmt.Sprintf("mkt %s %s %s %s", vh.Bool(sp.Creds), vh.Nat(sp.Hops),
-			vh.Bool(sp.TimeoutMs > 0 || c.MgrTimeoutMs > 0), vh.List(evs))
+			vh.Bool(mayExpire(c, sp)), vh.List(evs))
 	}
 	return vh.List(ts)
 }
@@ -611,6 +633,8 @@ func systematicScripts() []TargetSpec {
 		{Hops: 1, TimeoutMs: tmo, Streams: []Stream{{"", "hang"}, {"us", "hang"}, {"u", "eof"}}},
 		// slow but live stream with a timeout: the timer is re-armed per message
 		{Hops: 1, TimeoutMs: tmo, Streams: []Stream{{"uwuwuwuws", "err"}}},
+		// receive timer armed but far away: the timeout goroutine exists and must stay quiet
+		{Hops: 1, TimeoutMs: longTimeoutMs, Streams: []Stream{{"us", "eof"}, {"u", "hang"}, {"su", "err"}}},
 	}
 }
 
@@ -618,6 +642,8 @@ func randSpec(r *vh.Rand) TargetSpec {
 	sp := TargetSpec{Hops: 1 + r.Pick(6, 3, 1), Creds: r.Chance(1, 4)}
 	if r.Chance(1, 4) {
 		sp.TimeoutMs = tmo
+	} else if r.Chance(1, 4) {
+		sp.TimeoutMs = longTimeoutMs
 	}
 	n := 1 + r.Intn(6)
 	for i := 0; i < n; i++ {
@@ -644,6 +670,9 @@ func randCase(r *vh.Rand) Case {
 	c := Case{Family: "random"}
 	if r.Chance(1, 8) {
 		c.MgrTimeoutMs = tmo
+	}
+	if r.Chance(1, 3) {
+		c.CbDelayUs = 100 + 100*r.Intn(4)
 	}
 	nt := 1 + r.Pick(5, 3, 2)
 	for i := 0; i < nt; i++ {
@@ -907,6 +936,9 @@ func main() {
 			for at := 0; at <= l; at += step {
 				c := base
 				c.Ops = []Op{{T: 0, At: at, K: k}}
+				if (at/step)%3 == 1 {
+					c.CbDelayUs = 200
+				}
 				sys = append(sys, c)
 			}
 		}
